@@ -245,6 +245,10 @@ def run_scenario(case, layer):
                 viol.add('refused_idle_pair', 'send_pgn refused at t=%.4f although no transfer %02X->%02X was in progress'
                          % (m['t_sub'], sa, da), layer=layer, mode=mode)
 
+    # ---- every frame of every stack is well-formed and obeys flow control also under concurrency (independent sniffer) ------
+    for (kind, by, msg) in sn.problems:
+        viol.add('wire_' + kind, '%s: %s' % (by, msg), layer=layer)
+
     # ---- cross-check: what the sniffer reassembled equals what was submitted -------------------
     sn_ok = 0
     subm = collections.Counter()
